@@ -11,9 +11,16 @@ Three things are executed here against the real code (ctx.src), in-process:
    compared with lean/PyramidModel/Pipeline.lean (driver) and judged by a Python oracle that states the property.
  * scope cases: Configurator.begin/end, commit, include, action(autocommit), `with Configurator()`,
    route_prefix_context, make_wsgi_app, scripting.prepare / get_root / closer / `with prepare()`, RequestContext,
-   Router.__call__ / invoke_subrequest / request.invoke_exception_view with a failing user hook: the visited hook
-   sites with their depths, the outcome and the final depth are compared with `exec` of the generated skeleton
-   (Gen/C13Skeleton.lean) under the same oracle, and judged by the balance oracle.
+   request.invoke_exception_view with failing user hooks: the visited hook sites with their depths, the outcome and
+   the final depth are compared with `exec` of the generated skeleton (Gen/C13Skeleton.lean), and judged by the
+   balance oracle.  The same comparison is made for every request of every pipeline case (Router.__call__ /
+   invoke_subrequest: chain, response callbacks, NewResponse, finished callbacks).
+
+The skeleton comparison does not depend on names or shapes of the source: a hook finds the call site it runs under
+by walking the Python stack and looking the current instruction's source position up in the translator's location
+table (`site_here`); the branch/loop decisions of the oracle are not written down here but searched for
+(`find_oracle`: is there an oracle under which `exec` visits the instrumented sites as the real run did and ends the
+same way?) and the proposed oracle is then run by the Lean `exec`, whose trace is what is compared.
 """
 import json, os, sys, itertools
 
@@ -39,6 +46,43 @@ KINDS = ['plain', 'http', 'soft']
 
 class Boom(Exception):
     pass
+
+
+# ---- which call site of the translated skeletons is executing?  (by source position, not by name) -----------
+_LOC = {'pkg': None, 'map': {}}
+_POS = {}
+
+
+def set_locator(src, locs):
+    """locs: site id -> "file:line:col:endline:endcol" as emitted by extract/c13.py for the tree under test"""
+    _LOC['pkg'] = os.path.join(os.path.realpath(src), 'pyramid') + os.sep
+    _LOC['map'] = {l: i for i, l in enumerate(locs) if l and l != '-'}
+
+
+def site_here():
+    """site id of the innermost call expression of a translated function that is on the Python stack right now:
+    walks the frames outwards and looks the position of each frame's current instruction up in the translator's
+    location table (frames of code that is not translated are skipped)"""
+    pkg, m = _LOC['pkg'], _LOC['map']
+    if not pkg:
+        return None
+    f = sys._getframe(1)
+    while f is not None:
+        code = f.f_code
+        fn = code.co_filename
+        if fn.startswith(pkg) or os.path.realpath(fn).startswith(pkg):
+            pos = _POS.get(code)
+            if pos is None:
+                pos = _POS[code] = list(code.co_positions())
+            i = f.f_lasti // 2
+            if 0 <= i < len(pos):
+                l, el, c, ec = pos[i]
+                rel = os.path.realpath(fn)[len(pkg):]
+                s = m.get('%s:%s:%s:%s:%s' % (rel, l, c, el, ec))
+                if s is not None:
+                    return s
+        f = f.f_back
+    return None
 
 
 def eff_kind(point, kind):
@@ -68,6 +112,7 @@ class ReqState:
         self.spec, self.base = spec, base
         self.own, self.kids = [], []
         self.out, self.depth_after = None, None
+        self.sk = []       # [kind, site id, depth, raised] of the events the skeleton comparison looks at
 
     def rel(self):
         return len(manager.stack)
@@ -75,6 +120,8 @@ class ReqState:
     def hook(self, request, point):
         """returns True when the hook must answer `no` (soft), raises when the schedule says so"""
         self.own.append(['hook', point, get_current_request() is request, self.rel()])
+        if point in ('newResponse', 'excView'):
+            self.sk.append(['new' if point == 'newResponse' else 'excView', site_here(), self.rel(), fault_of(self.spec, point) is not None])
         for i, (stage, kind, _f) in enumerate(self.spec.get('regs', [])):
             if stage == point:
                 self.own.append(['reg', kind, i])
@@ -93,6 +140,7 @@ class ReqState:
         def cb(request, response):
             self.own.append(['cb', 'resp', i, get_current_request() is request, self.rel()])
             f = self.spec['regs'][i][2]
+            self.sk.append(['resp', site_here(), self.rel(), f is not None])
             if f is not None:
                 throw(eff_kind('cb', f))
         return cb
@@ -101,9 +149,17 @@ class ReqState:
         def cb(request):
             self.own.append(['cb', 'fin', i, get_current_request() is request, self.rel()])
             f = self.spec['regs'][i][2]
+            self.sk.append(['fin', site_here(), self.rel(), f is not None])
             if f is not None:
                 throw(eff_kind('cb', f))
         return cb
+
+    def chain(self, ok):
+        self.own.append(['chain', ok])
+        self.sk.append(['chain', site_here(), None, not ok])
+
+    def sk_tree(self):
+        return {'sk': self.sk, 'kids': [k.sk_tree() for k in self.kids]}
 
     def tree(self):
         return {'own': self.own, 'out': self.out, 'depth': self.depth_after, 'kids': [k.tree() for k in self.kids]}
@@ -128,9 +184,9 @@ def probe_tween_factory(handler, registry):
         try:
             r = handler(request)
         except BaseException:
-            st_of(request).own.append(['chain', False])
+            st_of(request).chain(False)
             raise
-        st_of(request).own.append(['chain', True])
+        st_of(request).chain(True)
         return r
     return probe
 
@@ -318,13 +374,16 @@ def make_app(xv):
         try:
             r = inner(request)
         except BaseException:
-            st_of(request).own.append(['chain', False])
+            st_of(request).chain(False)
             raise
-        st_of(request).own.append(['chain', True])
+        st_of(request).chain(True)
         return r
     app.orig_handle_request = probed
     _APPS[xv] = app
     return app
+
+
+LAST_SK = [None]
 
 
 def run_pipeline(case):
@@ -350,6 +409,7 @@ def run_pipeline(case):
     finally:
         st.depth_after = len(manager.stack)
         del manager.stack[:]
+    LAST_SK[0] = st.sk_tree()
     return st.tree()
 
 
@@ -496,7 +556,7 @@ class Probe:
 
     def visit(self, label):
         bad = label in self.fail
-        self.visits.append([label, len(manager.stack), bad])
+        self.visits.append([label, len(manager.stack), bad, site_here()])
         if bad:
             raise Boom(label)
 
@@ -537,42 +597,22 @@ def _script_config():
     return config
 
 
-# scenario -> (skeleton entry, {label: site name}, [branch sites taken], labels in the order they can occur)
+# scenario -> (skeleton entry, {label: name of the translator's synthetic site for a body that is the scenario's own code},
+#              labels in the order they can occur).  Every other hook is located by source position (site_here).
 SCOPES = {
-    'include': ('Configurator_include', {'inc': 'Configurator.include|c|1'},
-                ['Configurator.include|if|3', 'Configurator.begin|if|1'], ['inc']),
-    'commit': ('Configurator_commit', {'act': 'ActionConfiguratorMixin.commit|self.action_state.execute_actions|1'},
-               ['Configurator.begin|if|1'], ['act']),
-    'action_autocommit': ('Configurator_action', {'act': 'ActionConfiguratorMixin.action|callable|1'},
-                          ['ActionConfiguratorMixin.action|if|3', 'ActionConfiguratorMixin.action|if|4', 'Configurator.begin|if|1'], ['act']),
-    'with_configurator': ('with_Configurator', {'body': 'user|with Configurator body|1',
-                                                'act': 'ActionConfiguratorMixin.commit|self.action_state.execute_actions|1'},
-                          ['Configurator.begin|if|1'], ['body', 'act']),
-    'route_prefix_context': ('with_route_prefix_context', {'body': 'user|route_prefix_context body|1'},
-                             ['Configurator.begin|if|1'], ['body']),
-    'make_wsgi_app': ('Configurator_make_wsgi_app', {'act': 'ActionConfiguratorMixin.commit|self.action_state.execute_actions|1',
-                                                     'created': 'Configurator.make_wsgi_app|self.registry.notify|1'},
-                      ['Configurator.begin|if|1'], ['act', 'created']),
-    'begin_end': ('begin_then_end', {'body': 'user|begin/end body|1'}, ['Configurator.begin|if|1'], ['body']),
-    'request_context': ('with_RequestContext', {'body': 'user|RequestContext body|1'}, [], ['body']),
-    'prepare_closer': ('prepare_then_closer', {'mkreq': 'prepare|_make_request|1', 'ext': 'prepare|apply_request_extensions|1',
-                                               'root': 'prepare|root_factory|1', 'body': 'user|prepare then closer body|1',
-                                               'fin0': 'CallbackMethodsMixin._process_finished_callbacks|callback|1',
-                                               'fin1': 'CallbackMethodsMixin._process_finished_callbacks|callback|1'},
-                       ['prepare|if|3', 'prepare|if|4'], ['mkreq', 'ext', 'root', 'body', 'fin0', 'fin1']),
-    'with_prepare': ('with_prepare', {'mkreq': 'prepare|_make_request|1', 'ext': 'prepare|apply_request_extensions|1',
-                                      'root': 'prepare|root_factory|1', 'body': 'user|with prepare body|1',
-                                      'fin0': 'CallbackMethodsMixin._process_finished_callbacks|callback|1',
-                                      'fin1': 'CallbackMethodsMixin._process_finished_callbacks|callback|1'},
-                     ['prepare|if|3', 'prepare|if|4'], ['mkreq', 'ext', 'root', 'body', 'fin0', 'fin1']),
-    'get_root_closer': ('get_root_then_closer', {'mkreq': 'get_root|_make_request|1', 'root': 'get_root|app.root_factory|1',
-                                                 'body': 'user|get_root then closer body|1'},
-                        ['get_root|if|1'], ['mkreq', 'root', 'body']),
-    'explicit_excview': ('invoke_exception_view', {'excView': 'ViewMethodsMixin.invoke_exception_view|_call_view|1'},
-                         ['ViewMethodsMixin.invoke_exception_view|if|1'], ['excView']),
+    'include': ('Configurator_include', {}, ['inc']),
+    'commit': ('Configurator_commit', {}, ['act']),
+    'action_autocommit': ('Configurator_action', {}, ['act']),
+    'with_configurator': ('with_Configurator', {'body': 'user|with Configurator body|1'}, ['body', 'act']),
+    'route_prefix_context': ('with_route_prefix_context', {'body': 'user|route_prefix_context body|1'}, ['body']),
+    'make_wsgi_app': ('Configurator_make_wsgi_app', {}, ['act', 'created']),
+    'begin_end': ('begin_then_end', {'body': 'user|begin/end body|1'}, ['body']),
+    'request_context': ('with_RequestContext', {'body': 'user|RequestContext body|1'}, ['body']),
+    'prepare_closer': ('prepare_then_closer', {'body': 'user|prepare then closer body|1'}, ['mkreq', 'ext', 'root', 'body', 'fin0', 'fin1']),
+    'with_prepare': ('with_prepare', {'body': 'user|with prepare body|1'}, ['mkreq', 'ext', 'root', 'body', 'fin0', 'fin1']),
+    'get_root_closer': ('get_root_then_closer', {'body': 'user|get_root then closer body|1'}, ['mkreq', 'root', 'body']),
+    'explicit_excview': ('invoke_exception_view', {}, ['excView']),
 }
-FIN_WHILE = 'CallbackMethodsMixin._process_finished_callbacks|while|1'
-FIN_POPLEFT = 'CallbackMethodsMixin._process_finished_callbacks|callbacks.popleft|1'
 
 
 def run_scope(case):
@@ -661,9 +701,9 @@ def run_scope(case):
                     try:
                         r.invoke_exception_view(sys.exc_info())
                     finally:
-                        for e in st.own:
-                            if e[0] == 'hook' and e[1] == 'excView':
-                                probe.visits.append(['excView', e[3], 'excView' in probe.fail])
+                        for k in st.sk:
+                            if k[0] == 'excView':
+                                probe.visits.append(['excView', k[2], 'excView' in probe.fail, k[1]])
             else:
                 raise ValueError('unknown scenario %r' % sc)
         except Exception:
@@ -678,7 +718,7 @@ def run_scope(case):
 def scope_wf(case):
     try:
         sc = case['scenario']
-        return (sc in SCOPES and isinstance(case.get('fail', []), list) and all(f in SCOPES[sc][1] for f in case.get('fail', []))
+        return (sc in SCOPES and isinstance(case.get('fail', []), list) and all(f in SCOPES[sc][2] for f in case.get('fail', []))
                 and isinstance(case.get('base', 0), int) and 0 <= case.get('base', 0) <= 3
                 and isinstance(case.get('ncb', 0), int) and 0 <= case.get('ncb', 0) <= 2)
     except Exception:
@@ -686,59 +726,149 @@ def scope_wf(case):
 
 
 class SitesMissing(Exception):
-    """the regenerated skeleton no longer has call sites the harness instruments (the source was restructured)"""
+    """a hook ran at a place that is not a call site of any translated skeleton (the source was restructured in a
+    way the translator does not follow)"""
 
     def __init__(self, labels):
         Exception.__init__(self, ', '.join(labels))
         self.labels = sorted(set(labels))
 
 
-def need(sites, names):
-    missing = [n for n in names if n not in sites]
+def scope_visits(case, obs, sites):
+    """[(site id, depth, raised)] of a scope observation"""
+    _entry, synth, _order = SCOPES[case['scenario']]
+    out, missing = [], []
+    for label, d, bad, sid in obs['visits']:
+        if label in synth:
+            sid = sites.get(synth[label])
+        if sid is None:
+            missing.append('%s:%s' % (case['scenario'], label))
+        out.append((sid, d, bad))
     if missing:
         raise SitesMissing(missing)
+    return out
 
 
-def scope_model_line(case, obs, sites):
-    """the `exec` query whose oracle is what the real run did (raises SitesMissing when the skeleton lacks a site)"""
-    entry, labels, taken, _ = SCOPES[case['scenario']]
-    need(sites, [labels[v[0]] for v in obs['visits']])
+# ---- oracle search: is there an oracle under which `exec` of the skeleton does what the real run did? ---------
+
+def find_oracle(term, depth0, visits, hooked, want_raised, want_depth):
+    """Search the branch / loop decisions of a skeleton (JSON term from the driver) for an execution that visits
+    the instrumented call sites `hooked` exactly as observed (`visits` = [(site, depth|None, raised)], calls at
+    other sites do not raise — only the harness's hooks fail), ends raised / not raised as observed and at the
+    observed depth.  Returns the oracle as the driver wants it ({'raises','takes','iters'}) or None.  The search
+    only proposes; the comparison is made by the Lean `exec` run with the proposed oracle."""
+    memo = {}
+    n_vis = len(visits)
+
+    def res(node, d, i):
+        key = (id(node), d, i)
+        r = memo.get(key)
+        if r is not None:
+            return r
+        r = {}
+        if isinstance(node, str):
+            if node in ('skip', 'unknown'):
+                r[(d, i, 'n')] = ()
+            elif node == 'push':
+                r[(d + 1, i, 'n')] = ()
+            elif node == 'pop':
+                r[(max(d - 1, 0), i, 'n')] = ()
+            elif node == 'ret':
+                r[(d, i, 'r')] = ()
+            elif node == 'raise':
+                r[(d, i, 'x')] = ()
+        else:
+            op = node[0]
+            if op == 'call':
+                s = node[1]
+                if s in hooked:
+                    if i < n_vis and visits[i][0] == s and (visits[i][1] is None or visits[i][1] == d):
+                        r[(d, i + 1, 'x' if visits[i][2] else 'n')] = ()
+                else:
+                    r[(d, i, 'n')] = ()
+            elif op == 'seq':
+                for (d1, i1, o1), c1 in res(node[1], d, i).items():
+                    if o1 != 'n':
+                        r.setdefault((d1, i1, o1), c1)
+                    else:
+                        for k2, c2 in res(node[2], d1, i1).items():
+                            r.setdefault(k2, c1 + c2)
+            elif op == 'ite':
+                s = node[1]
+                for k1, c1 in res(node[2], d, i).items():
+                    r.setdefault(k1, (('t', s, True),) + c1)
+                for k1, c1 in res(node[3], d, i).items():
+                    r.setdefault(k1, (('t', s, False),) + c1)
+            elif op == 'scope':
+                for (d1, i1, o1), c1 in res(node[1], d, i).items():
+                    r.setdefault((d1, i1, 'n' if o1 == 'r' else o1), c1)
+            elif op == 'fin':
+                for (d1, i1, o1), c1 in res(node[1], d, i).items():
+                    for (d2, i2, o2), c2 in res(node[2], d1, i1).items():
+                        r.setdefault((d2, i2, o1 if o2 == 'n' else o2), c1 + c2)
+            elif op == 'exc':
+                for (d1, i1, o1), c1 in res(node[1], d, i).items():
+                    if o1 != 'x':
+                        r.setdefault((d1, i1, o1), c1)
+                    else:
+                        for k2, c2 in res(node[2], d1, i1).items():
+                            r.setdefault(k2, c1 + c2)
+            elif op == 'loop':
+                s = node[1]
+                r[(d, i, 'n')] = (('l', s, 0),)
+                cur, seen, n = {(d, i): ()}, {(d, i)}, 0
+                while cur and n <= n_vis + 1:
+                    n += 1
+                    nxt = {}
+                    for (d0, i0), c0 in cur.items():
+                        for (d1, i1, o1), c1 in res(node[2], d0, i0).items():
+                            if o1 == 'n':
+                                r.setdefault((d1, i1, 'n'), (('l', s, n),) + c0 + c1)
+                                if (d1, i1) not in seen:
+                                    seen.add((d1, i1))
+                                    nxt[(d1, i1)] = c0 + c1
+                            else:
+                                r.setdefault((d1, i1, o1), (('l', s, n),) + c0 + c1)
+                    cur = nxt
+        memo[key] = r
+        return r
+
+    found = None
+    for (d1, i1, o1), c in res(term, depth0, 0).items():
+        if i1 == n_vis and d1 == want_depth and (o1 == 'x') == bool(want_raised):
+            found = c
+            break
+    if found is None:
+        return None
+    takes, iters, cnt = [], [], {}
+    # visit numbers: `exec` counts earlier visits per site id (call, branch and loop sites have ids of their own)
+    for kind, s, v in found:
+        k = cnt.get(s, 0)
+        cnt[s] = k + 1
+        if kind == 't':
+            if v:
+                takes.append([s, k])
+        else:
+            iters.append([s, k, v])
     raises, seen = [], {}
-    for label, _d, bad in obs['visits']:
-        sid = sites[labels[label]]
-        k = seen.get(sid, 0)
-        seen[sid] = k + 1
+    for s, _d, bad in visits:
+        k = seen.get(s, 0)
+        seen[s] = k + 1
         if bad:
-            raises.append([sid, k])
-    takes = [[sites[n], k] for n in taken if n in sites for k in range(4)]
-    iters = []
-    nfin = sum(1 for v in obs['visits'] if v[0].startswith('fin'))
-    if case['scenario'] in ('prepare_closer', 'with_prepare'):
-        need(sites, ['prepare.closer|if|1', FIN_WHILE])
-        if int(case.get('ncb', 0)) > 0:
-            takes += [[sites['prepare.closer|if|1'], 0]]
-        iters.append([sites[FIN_WHILE], 0, nfin])
-    if case['scenario'] == 'explicit_excview':
-        need(sites, ['hide_attrs|for|1', 'hide_attrs|for|2', 'ViewMethodsMixin.invoke_exception_view|except Exception|1'])
-        iters += [[sites['hide_attrs|for|1'], 0, 3], [sites['hide_attrs|for|2'], 0, 3]]
-        if obs['raised']:
-            takes += [[sites['ViewMethodsMixin.invoke_exception_view|except Exception|1'], 0]]
-    if case['scenario'] == 'with_configurator' and not any(v[0] == 'body' and v[2] for v in obs['visits']):
-        need(sites, ['Configurator.__exit__|if|1'])
-        takes += [[sites['Configurator.__exit__|if|1'], 0]]
-    return {'op': 'exec', 'entry': entry, 'depth': obs['before'], 'raises': raises, 'takes': takes, 'iters': iters}
+            raises.append([s, k])
+    return {'raises': raises, 'takes': takes, 'iters': iters}
 
 
-def scope_compare(case, obs, mo, sites):
-    """None when `exec` under the observed oracle visits the same hooks at the same depths and ends the same way"""
-    entry, labels, _, _ = SCOPES[case['scenario']]
-    hooked = {sites[n] for n in labels.values() if n in sites}
-    want = [[sites[labels[l]], d, bad] for l, d, bad in obs['visits']]
+def exec_compare(mo, visits, hooked, want_raised, want_depth):
+    """None when the Lean `exec` reply visits the instrumented sites as observed and ends the same way"""
     got = [v for v in mo.get('trace', []) if v[0] in hooked]
-    m_raised = mo.get('outcome') == 'raised'
-    if got != want or m_raised != obs['raised'] or mo.get('depth') != obs['after']:
-        return {'case': case, 'impl': obs, 'model': {'hooked_trace': got, 'outcome': mo.get('outcome'), 'depth': mo.get('depth'), 'error': mo.get('error')}}
-    return None
+    ok = (len(got) == len(visits)
+          and all(g[0] == w[0] and (w[1] is None or g[1] == w[1]) and bool(g[2]) == bool(w[2]) for g, w in zip(got, visits))
+          and (mo.get('outcome') == 'raised') == bool(want_raised) and mo.get('depth') == want_depth)
+    if ok:
+        return None
+    return {'hooked_trace': got, 'expected_trace': [list(v) for v in visits], 'outcome': mo.get('outcome'),
+            'depth': mo.get('depth'), 'error': mo.get('error')}
 
 
 def scope_check(case, obs):
@@ -751,7 +881,7 @@ def scope_check(case, obs):
 
 def all_scope_cases():
     out = []
-    for sc, (_e, labels, _t, order) in SCOPES.items():
+    for sc, (_e, _synth, order) in SCOPES.items():
         ncbs = [0, 1, 2] if sc in ('prepare_closer', 'with_prepare') else [0]
         for ncb in ncbs:
             usable = [l for l in order if not l.startswith('fin') or int(l[3:]) < ncb]
@@ -764,62 +894,29 @@ def all_scope_cases():
     return out
 
 
-# ---- the top of a pipeline run against the skeleton of Router.__call__ / invoke_subrequest --------------------
+# ---- every request of a pipeline run against the skeleton of Router.__call__ / invoke_subrequest --------------
 
-PIPE_SITES = {'chain': 'Router.invoke_request|handle_request|1',
-              'resp': 'CallbackMethodsMixin._process_response_callbacks|callback|1',
-              'new': 'Router.invoke_request|notify|1',
-              'fin': 'CallbackMethodsMixin._process_finished_callbacks|callback|1'}
-RESP_WHILE = 'CallbackMethodsMixin._process_response_callbacks|while|1'
-
-
-def pipeline_skeleton_query(spec, node, top, depth_before, sites):
-    """(exec query, expected hooked trace) for one request of an observation tree"""
-    need(sites, list(PIPE_SITES.values()) + [RESP_WHILE, FIN_WHILE, 'Router.invoke_request|and|1',
-                                            'Router.invoke_request|if|2', 'Router.finish_request|if|1'])
-    visits = []
-    for e in node['own']:
-        if e[0] == 'chain':
-            visits.append(['chain', None, not e[1]])
-        elif e[0] == 'cb' and e[1] == 'resp':
-            visits.append(['resp', e[4], reg_fault(spec, e[2])])
-        elif e[0] == 'cb' and e[1] == 'fin':
-            visits.append(['fin', e[4], reg_fault(spec, e[2])])
-        elif e[0] == 'hook' and e[1] == 'newResponse':
-            visits.append(['new', e[3], fault_of(spec, 'newResponse') is not None])
-    raises, seen, want = [], {}, []
-    for label, d, bad in visits:
-        sid = sites[PIPE_SITES[label]]
-        k = seen.get(sid, 0)
-        seen[sid] = k + 1
-        if bad:
-            raises.append([sid, k])
-        want.append([sid, d, bad])
-    nresp = sum(1 for v in visits if v[0] == 'resp')
-    nfin = sum(1 for v in visits if v[0] == 'fin')
-    # were the deques non-empty when the router looked at them?
-    k = next((i for i, e in enumerate(node['own']) if e[0] == 'chain'), len(node['own']))
-    resp_regs = sum(1 for e in node['own'][:k] if e[0] == 'reg' and e[1] == 'resp')
-    fin_regs = sum(1 for e in node['own'] if e[0] == 'reg' and e[1] == 'fin')
-    takes = [[sites['Router.invoke_request|and|1'], 0]]
-    if resp_regs:
-        takes.append([sites['Router.invoke_request|if|2'], 0])
-    if fin_regs:
-        takes.append([sites['Router.finish_request|if|1'], 0])
-    iters = [[sites[RESP_WHILE], 0, nresp], [sites[FIN_WHILE], 0, nfin]]
-    entry = 'Router_call' if top else 'Router_invoke_subrequest'
-    return ({'op': 'exec', 'entry': entry, 'depth': depth_before, 'raises': raises, 'takes': takes, 'iters': iters}, want)
+def sk_nodes(spec, node, sk, top=True, depth_before=None):
+    """(spec, node, sk list, top?, depth before the call) for every request of an observation tree"""
+    yield spec, node, sk['sk'], top, depth_before
+    d_view = next((e[3] for e in node['own'] if e[0] == 'hook' and e[1] == 'viewBody'), None)
+    for i, kid in enumerate(node['kids']):
+        if i < len(spec.get('subs', [])) and i < len(sk['kids']):
+            yield from sk_nodes(spec['subs'][i], kid, sk['kids'][i], False, d_view)
 
 
-def pipeline_skeleton_compare(node, mo, want, sites):
-    hooked = {sites[n] for n in PIPE_SITES.values()}
-    got = [v for v in mo.get('trace', []) if v[0] in hooked]
-    # the chain marker carries no depth observation
-    got2 = [[s, (None if s == sites[PIPE_SITES['chain']] else d), b] for s, d, b in got]
-    raised = node['out'] != 'resp'
-    if got2 != want or (mo.get('outcome') == 'raised') != raised or mo.get('depth') != node['depth']:
-        return {'hooked_trace': got, 'expected_trace': want, 'outcome': mo.get('outcome'), 'depth': mo.get('depth'), 'error': mo.get('error')}
-    return None
+def pipeline_visits(sk):
+    """[(site, depth|None, raised)] of the chain marker, response callbacks, NewResponse and finished callbacks"""
+    out, missing = [], []
+    for kind, sid, d, bad in sk:
+        if kind == 'excView':
+            continue
+        if sid is None:
+            missing.append('pipeline:' + kind)
+        out.append((sid, d, bad))
+    if missing:
+        raise SitesMissing(missing)
+    return out
 
 
 def tree_nodes(spec, node, top=True, depth_before=None):
@@ -909,46 +1006,112 @@ def get_sites(ctx):
     return ex.site_table(ctx.src), None
 
 
+_HOOKED = {}      # entry group -> set of instrumented site ids seen so far (scope scenario name / 'pipeline')
+_TERMS = {}
+
+
+def _note_hooked(group, visits):
+    _HOOKED.setdefault(group, set()).update(v[0] for v in visits if v[0] is not None)
+
+
+def ensure_baselines(sites, scenarios, pipeline):
+    """one run without failures per scenario, so that every hook of the scenario is known as an instrumented site
+    even when a single case is replayed"""
+    for sc in scenarios:
+        if ('base', sc) in _HOOKED:
+            continue
+        _HOOKED[('base', sc)] = True
+        c = {'kind': 'scope', 'scenario': sc, 'fail': [], 'base': 0, 'ncb': 2 if sc in ('prepare_closer', 'with_prepare') else 0}
+        try:
+            _note_hooked(sc, scope_visits(c, run_scope(c), sites))
+        except SitesMissing:
+            pass
+    if pipeline and ('base', 'pipeline') not in _HOOKED:
+        _HOOKED[('base', 'pipeline')] = True
+        c = {'kind': 'pipeline', 'xv': False, 'base': 0,
+             'req': {'tw': True, 'route': False, 'faults': [], 'xx': None, 'regs': [['newRequest', 'resp', None], ['newRequest', 'fin', None]],
+                     'subs': [{'tw': False, 'route': False, 'faults': [], 'xx': None, 'regs': [['newRequest', 'resp', None], ['newRequest', 'fin', None]], 'subs': []}]}}
+        run_pipeline(c)
+        for _s, _n, sk, _t, _d in sk_nodes(c['req'], {'own': [], 'kids': [{'own': [], 'kids': []}]}, LAST_SK[0]):
+            try:
+                _note_hooked('pipeline', pipeline_visits(sk))
+            except SitesMissing:
+                pass
+
+
 def eval_cases(ctx, cases, use_model=True):
     """run cases on the real code, on the model (if built) and through the oracle"""
-    sites, _ = get_sites(ctx)
-    have_model = bool(use_model and ctx.driver_path)
-    obs = []
+    sites, sinfo = get_sites(ctx)
+    have_model = bool(use_model and ctx.driver_path and sinfo is not None)
+    if have_model:
+        if _LOC.get('src') != ctx.src:
+            _HOOKED.clear(); _TERMS.clear(); _POS.clear()
+            _LOC['src'] = ctx.src
+        set_locator(ctx.src, sinfo.get('locs', []))
+    obs, sks = [], []
     for c in cases:
         if c.get('kind') == 'scope':
-            obs.append(run_scope(c) if scope_wf(c) else None)
+            obs.append(run_scope(c) if scope_wf(c) else None); sks.append(None)
         else:
-            obs.append(run_pipeline(c) if pipeline_wf(c) else None)
+            if pipeline_wf(c):
+                obs.append(run_pipeline(c)); sks.append(LAST_SK[0])
+            else:
+                obs.append(None); sks.append(None)
     mism, viol, agree = [], [], 0
-    # first model pass: pipeline trees and scope execs
-    lines, owner = [], []
     bad_case = set()
-    missing = {}        # label -> number of cases whose skeleton comparison could not be made
+    missing = {}        # hook -> number of cases whose skeleton comparison could not be made
 
     def site_break(i, e):
         bad_case.add(i)
         for l in e.labels:
             missing[l] = missing.get(l, 0) + 1
 
-    for i, (c, o) in enumerate(zip(cases, obs)):
-        if o is None or not have_model:
-            continue
-        if c.get('kind') == 'scope':
+    # what the skeleton comparison needs from each case: (case index, entry, group, depth before, visits, raised?, depth after, shown impl)
+    jobs = []
+    if have_model:
+        try:
+            ensure_baselines(sites, sorted({c['scenario'] for c, o in zip(cases, obs) if o is not None and c.get('kind') == 'scope'}),
+                             any(o is not None and c.get('kind') != 'scope' for c, o in zip(cases, obs)))
+        except Exception as e:
+            mism.append({'kind': 'comparison-failed', 'case': None, 'impl': None, 'model': {'error': 'baseline: %s: %s' % (type(e).__name__, e)}})
+        for i, (c, o) in enumerate(zip(cases, obs)):
+            if o is None:
+                continue
             try:
-                lines.append(scope_model_line(c, o, sites)); owner.append((i, 'scope', None))
+                if c.get('kind') == 'scope':
+                    v = scope_visits(c, o, sites)
+                    _note_hooked(c['scenario'], v)
+                    jobs.append((i, SCOPES[c['scenario']][0], c['scenario'], o['before'], v, o['raised'], o['after'], o))
+                else:
+                    for spec, node, sk, top, d0 in sk_nodes(c['req'], o, sks[i], True, int(c.get('base', 0))):
+                        v = pipeline_visits(sk)
+                        _note_hooked('pipeline', v)
+                        jobs.append((i, 'Router_call' if top else 'Router_invoke_subrequest', 'pipeline', d0, v,
+                                     node['out'] != 'resp', node['depth'], {'own': node['own'], 'out': node['out'], 'depth': node['depth']}))
             except SitesMissing as e:
                 site_break(i, e)
-        else:
-            lines.append(model_line(c)); owner.append((i, 'tree', None))
-            try:
-                qs = []
-                for spec, node, top, d0 in tree_nodes(c['req'], o, True, int(c.get('base', 0))):
-                    q, want = pipeline_skeleton_query(spec, node, top, d0, sites)
-                    qs.append((q, (node, want)))
-                for q, extra in qs:
-                    lines.append(q); owner.append((i, 'skel', extra))
-            except SitesMissing as e:
-                site_break(i, e)
+    lines, owner = [], []
+    try:
+        need_terms = sorted({j[1] for j in jobs} - set(_TERMS))
+        if need_terms:
+            for nm, r in zip(need_terms, ctx.run_model([{'op': 'term', 'entry': nm} for nm in need_terms])):
+                _TERMS[nm] = r.get('term')
+        for i, (c, o) in enumerate(zip(cases, obs)):
+            if have_model and o is not None and c.get('kind') != 'scope':
+                lines.append(model_line(c)); owner.append((i, 'tree', None))
+        for job in jobs:
+            i, entry, group, d0, v, raised, d_after, shown = job
+            term = _TERMS.get(entry)
+            orc = find_oracle(term, d0, v, _HOOKED.get(group, set()), raised, d_after) if term is not None else None
+            if orc is None:
+                mism.append({'kind': 'no-oracle', 'case': cases[i], 'impl': shown,
+                             'model': {'entry': entry, 'expected_trace': [list(x) for x in v], 'raised': raised, 'depth_after': d_after,
+                                       'note': 'no choice of branches/loop counts makes exec of the regenerated skeleton visit the instrumented sites as the real run did'}})
+                bad_case.add(i)
+                continue
+            lines.append(dict(orc, op='exec', entry=entry, depth=d0)); owner.append((i, 'exec', job))
+    except Exception as e:
+        mism.append({'kind': 'comparison-failed', 'case': None, 'impl': None, 'model': {'error': '%s: %s' % (type(e).__name__, e)}})
     replies = [None] * len(lines)
     if have_model and lines:
         try:
@@ -960,25 +1123,20 @@ def eval_cases(ctx, cases, use_model=True):
         ex = next(cases[i] for i in sorted(bad_case) if obs[i] is not None)
         mism.append({'kind': 'skeleton-site-missing', 'case': ex, 'impl': None,
                      'model': {'missing_site_labels': sorted(missing), 'cases_affected': dict(missing),
-                               'note': 'the regenerated skeleton has no call site with these labels; exec comparison skipped for the affected cases, the property is still evaluated on the implementation'}})
+                               'note': 'these hooks ran at a place that is not a call site of any regenerated skeleton; exec comparison skipped for the affected cases, the property is still evaluated on the implementation'}})
     for (i, what, extra), mo in zip(owner, replies):
         c, o = cases[i], obs[i]
         if mo is None:
             continue
         try:
-            if what == 'scope':
-                d = scope_compare(c, o, mo, sites)
-                if d:
-                    mism.append(d); bad_case.add(i)
-            elif what == 'tree':
+            if what == 'tree':
                 if mo.get('tree') != o:
                     mism.append({'case': c, 'impl': o, 'model': mo}); bad_case.add(i)
             else:
-                node, want = extra
-                d = pipeline_skeleton_compare(node, mo, want, sites)
+                _i, entry, group, d0, v, raised, d_after, shown = extra
+                d = exec_compare(mo, v, _HOOKED.get(group, set()), raised, d_after)
                 if d:
-                    mism.append({'case': c, 'impl': {'own': node['own'], 'out': node['out'], 'depth': node['depth']},
-                                 'model': dict(d, stream='skeleton exec of Router.__call__/invoke_subrequest')}); bad_case.add(i)
+                    mism.append({'case': c, 'impl': shown, 'model': dict(d, stream='exec of the generated skeleton %s' % entry)}); bad_case.add(i)
         except Exception as e:
             mism.append({'kind': 'comparison-failed', 'case': c, 'impl': None, 'model': {'error': '%s: %s' % (type(e).__name__, e)}})
             bad_case.add(i)
